@@ -278,6 +278,7 @@ def make_result(eng, kind, env, hint="result"):
 # ------------------------------------------------------------------------------------------- application at a call
 def _apply_contract(eng, c, env, cl):
     qn = c.qualname
+    cl_self = None
     caller = eng.call_stack[-1] if eng.call_stack else (eng.target.qualname if eng.target else "?")
     inst_kind = None
     fr = Frame(cl, dict(env))
@@ -333,6 +334,27 @@ def _apply_contract(eng, c, env, cl):
                         eng.assume(_ens(eng, e, post_env, fr, snap))
             finally:
                 eng.ghost = "x"
+        # ensures that mention the ghost bound gn() were proved for every value of it: assume them for every bound
+        # the caller has in play (its own ghost bound was covered by the plain evaluation above)
+        gens = [e for e in c.ensures if "gn()" in e]
+        if gens:
+            # the ancilla counters of the objects in sight are bounds the caller will want
+            for o in list(env.values()) + ([cl_self] if cl_self is not None else []):
+                if isinstance(o, PObj) and "_ancilla" in o.attrs:
+                    t = zint(eng.get_attr_raw(o, "_ancilla"))
+                    if not any(t.eq(x) for x in eng.gn_terms):
+                        eng.gn_terms.append(t)
+            for t in list(eng.gn_terms):
+                if eng._gn_const is not None and t.eq(eng._gn_const):
+                    continue
+                eng.gn_override = t
+                try:
+                    for e in gens:
+                        f = _ens(eng, e, post_env, fr, snap)
+                        f = z3.BoolVal(f) if isinstance(f, bool) else f
+                        eng.assume(z3.Implies(t >= 0, f))
+                finally:
+                    eng.gn_override = None
     finally:
         eng.apply_w_stack.pop()
     if any("warned_unsat" in e for e in c.ensures):
